@@ -37,4 +37,29 @@ def simulator(top, case, stats=None, p=0.2):
         Simulator(top)
         if stats is not None:
             stats["pre_elaborated"] = stats.get("pre_elaborated", 0) + 1
+    if lib.rng_for(case.get("seed", 0), case.get("idx", 0), 4343).random() < 0.12:
+        # the design is elaborated for a platform object (as a real build does) instead of `platform=None`:
+        # what the components generate — their cycle-level behaviour — does not depend on that
+        from amaranth.hdl import Fragment
+        if stats is not None:
+            stats["elaborated_for_a_platform"] = stats.get("elaborated_for_a_platform", 0) + 1
+        return Simulator(Fragment.get(top, BarePlatform()))
     return Simulator(top)
+
+
+class BarePlatform:
+    """a platform object without any of the optional hooks (get_memory, get_ff_sync, …)"""
+
+
+def mk_source(mode, us):
+    """an event source with trigger `mode`, created the way the caller happens to prefer (own random stream): the
+    constructor with a string or a Trigger member, or `Source.Signature(...).create()`"""
+    from amaranth_soc import event
+    x = us.random()
+    if x < .55:
+        return event.Source(trigger=mode)
+    if x < .75:
+        return event.Source(trigger=event.Source.Trigger(mode))
+    if x < .9:
+        return event.Source.Signature(trigger=mode).create()
+    return event.Source.Signature(trigger=event.Source.Trigger(mode)).create(path=("src",))
